@@ -177,6 +177,104 @@ def s1_start(src, group, max_faults):
 
 
 # ------------------------------------------------------------------------------------------
+# U1: one fetch answer against an arbitrary current position (symbolic offsets): an answer to a fetch whose
+# offset is no longer the position -- the application has sought elsewhere, or a reset moved it -- changes
+# nothing; an out-of-range answer for the current position starts the reset the policy asks for
+
+
+class _Req:
+    def __init__(self, offset):
+        self.topics = [("t", [(0, offset, 1000)])]
+
+
+class _Resp:
+    def __init__(self, version, error, hw):
+        self.API_VERSION = version
+        if version >= 11:
+            part = (0, error, hw, hw, 0, [], -1, b"")
+        elif version >= 5:
+            part = (0, error, hw, hw, 0, [], b"")
+        elif version >= 4:
+            part = (0, error, hw, hw, [], b"")
+        else:
+            part = (0, error, hw, b"")
+        self.topics = [("t", [part])]
+
+
+class _Client:
+    def __init__(self, loop, resp):
+        self._loop = loop
+        self._metadata_max_age_ms = 300000
+        self.resp = resp
+        self.metadata_updates = 0
+
+    async def send(self, node_id, request):
+        return self.resp
+
+    def force_metadata_update(self):
+        self.metadata_updates += 1
+        f = self._loop.create_future()
+        f.set_result(True)
+        return f
+
+
+def u1_fetch_answer(src):
+    from aiokafka.consumer.subscription_state import SubscriptionState
+    from aiokafka.consumer.fetcher import FetchError
+    from .common import in_loop
+    policy = POLICIES[src.choice("policy", 3)]
+    code = [1, 0, 6, 3][src.choice("answer", 4)]          # OFFSET_OUT_OF_RANGE, no error (nothing new), NOT_LEADER, UNKNOWN_TOPIC
+    version = [3, 4, 7, 11][src.choice("fetch_version", 4)]
+    pos = src.zint("current_position", 0)
+    foff = src.zint("offset_the_fetch_was_sent_for", 0)
+    hw = src.zint("high_watermark", 0)
+    out = {}
+
+    async def run():
+        loop = asyncio.get_event_loop()
+        sub = SubscriptionState()
+        sub.assign_from_user([TP])
+        assignment = sub.subscription.assignment
+        st = assignment.state_value(TP)
+        st.seek(pos)
+        client = _Client(loop, _Resp(version, code, hw))
+        f = Fetcher(client, sub, auto_offset_reset=policy, retry_backoff_ms=10)
+        f._fetch_task.cancel()
+        try:
+            await f._fetch_task
+        except asyncio.CancelledError:
+            pass
+        await f._proc_fetch_request(assignment, 0, _Req(foff))
+        out.update(st=st, fetcher=f, client=client)
+
+    in_loop(run)
+    st, f = out["st"], out["fetcher"]
+    stale = bool(pos != foff)
+    rec = f._records.get(TP)
+    info = dict(policy=policy, answer=code, fetch_version=version)
+    if stale or code in (0, 6, 3):
+        ok = st.has_valid_position and rec is None
+        if src.twin and not stale and code == 0:
+            ok = False
+        src.check(ok, "an answer for an offset that is no longer the position (or one that carries nothing) disturbed the partition: "
+                  "position invalidated or an error queued for the application", stale=stale, **info)
+        if st.has_valid_position:
+            src.check(st.position == pos, "the position moved although nothing was delivered", **info)
+    else:
+        # OFFSET_OUT_OF_RANGE for the current position
+        if policy == "none":
+            src.check(isinstance(rec, FetchError) and st.has_valid_position,
+                      "policy none: an out-of-range position must be reported to the application (OffsetOutOfRangeError)", **info)
+        else:
+            src.check(not st.has_valid_position and rec is None,
+                      "an out-of-range position must start a reset per auto_offset_reset", **info)
+            from aiokafka.consumer.fetcher import OffsetResetStrategy
+            want = {"earliest": OffsetResetStrategy.EARLIEST, "latest": OffsetResetStrategy.LATEST}[policy]
+            got = getattr(st, "reset_strategy", getattr(st, "_reset_strategy", None))
+            src.check(got == want, f"reset strategy after an out-of-range answer is {got}, policy {policy} asks for {want}", **info)
+
+
+# ------------------------------------------------------------------------------------------
 # S2: two partitions of one group member whose committed-offset lookups do not start together (the second
 # partition has no leader for a while) and a coordinator that answers OffsetFetch slowly
 
@@ -342,6 +440,12 @@ def harnesses(tier):
     q = tier == "quick"
     confs = [(True, 0), (False, 0), (True, 1)] if q else [(True, 1), (False, 1), (True, 2)]
     hs = [Harness(
+        name="U1_fetch_answer_vs_position", fn=u1_fetch_answer,
+        functions=[Fetcher._proc_fetch_request], shape="U",
+        symbolic_vars="current position, offset the fetch was sent for, high watermark (unbounded z3 Ints); policy, answer kind and Fetch version as choices",
+        bounds={"partitions": 1}, stubs=["client.send returns a prepared response object (no wire decoding)", "real SubscriptionState"],
+        max_seconds=120, twin_max_paths=100),
+        Harness(
         name="S2_two_partitions_staggered_lookups", fn=s2_two_partitions,
         functions=[GroupCoordinator._maybe_refresh_commit_offsets, GroupCoordinator._do_fetch_commit_offsets,
                    Fetcher._update_fetch_positions],
